@@ -21,6 +21,9 @@ RULE = (
     "exactly where x is NaN and other rows equal to the NaN-free result, follow-up values equal to the exactly fitted "
     "polynomial through the training pairs. Elementwise: log/log2/log10/exp/exp2/exp10 from TRANSFORMS and through "
     "model_matrix equal math.* per element on float and integer inputs; inverse pairs compose to the identity. "
+    "scale-integers: the same scale/center/standardize contracts on integer-typed vectors (int64 small / epoch seconds / "
+    "epoch nanoseconds whose sum exceeds 2**63, int32, int16, uint8, Python lists of ints), expected values from exact "
+    "rational arithmetic, direct calls and through model_matrix + spec reuse. "
     "Non-trivial = (length>=3 and degree>=2) or a follow-up vector or an inverse pair; distinct by (transform, parameters, vector)."
 )
 ASSUMPTIONS = [
@@ -397,7 +400,113 @@ def gen_elementwise():
     )
 
 
-N = {"quick": (1500, 1500, 600), "thorough": (20000, 20000, 6000)}
+# ---- scale / center / standardize on integer-typed vectors -------------------------------------------------------
+INT_KINDS = {
+    # name: (dtype, base, step) - values are base + step * k for small integers k (exactly representable in the dtype)
+    "small": ("int64", 0, 1),
+    "epoch-s": ("int64", 1_700_000_000, 3600),
+    "epoch-ns": ("int64", 1_700_000_000_000_000_000, 3_600_000_000_000),
+    "int32-large": ("int32", 40_000, 1_000),
+    "int16": ("int16", 150, 10),
+    "uint8": ("uint8", 100, 3),
+    "pylist": ("list", 3_000_000_000, 7_000),
+}
+
+
+def make_ints(c):
+    """exact Python ints plus the typed container handed to the library"""
+    dtype, base, step = INT_KINDS[c["kind"]]
+    rng = np.random.default_rng(c["seed"])
+    ks = [int(k) for k in rng.integers(0, 50, c["n"])]
+    if len(set(ks)) == 1:
+        ks[0] = (ks[0] + 1) % 50
+    vals = [base + step * k for k in ks]
+    return vals, (list(vals) if dtype == "list" else np.array(vals, dtype=dtype))
+
+
+def check_scale_ints(case) -> Outcome:
+    """integer columns are real vectors too: the contract is that of the same numbers held as floats (the statistics
+    are computed exactly here, in rational arithmetic)"""
+    import warnings
+    from fractions import Fraction
+
+    import pandas as pd
+    from ..libio import model_matrix
+    from formulaic.transforms import TRANSFORMS
+
+    out = Outcome()
+    vals, x = make_ints(case["x"])
+    which, ddof, cen, scl = case["which"], case["ddof"], case["center"], case["scale"]
+    n = len(vals)
+    if n - ddof <= 0:
+        return out
+    if which == "center":
+        kw, cen, scl = {}, True, False
+    elif which == "scale":
+        kw = dict(center=cen, scale=scl, ddof=ddof)
+    else:
+        kw = dict(center=cen, rescale=scl, ddof=ddof)
+    out.label("fn:" + which, "ints:" + case["x"]["kind"])
+    feat = dict(fn=which, center=cen, scale=scl, ddof=ddof, ints=True)
+    cval = Fraction(sum(vals), n) if cen is True else (Fraction(0) if cen is False else Fraction(cen))
+    xc = [Fraction(v) - cval for v in vals]
+    den = Fraction(n) - Fraction(ddof)
+    sval = math.sqrt(float(sum(v * v for v in xc) / den)) if scl is True else (1.0 if scl is False else float(scl))
+    exp = np.array([float(v) / sval for v in xc])
+    big = float(max(abs(v) for v in vals))
+    # float64 holds the inputs / the mean to ~1e-16 relative; everything else is relative to the result's own size
+    atol = 1e-13 * big / sval + 1e-9 * max(np.abs(exp).max(), 1.0)
+    state = {}
+    with warnings.catch_warnings():
+        warnings.simplefilter("ignore")
+        y = np.asarray(TRANSFORMS[which](x, _state=state, **kw), dtype=float)
+    desc = f"{which}({kw}) on {case['x']['kind']} integers {vals[:6]}{'...' if n > 6 else ''} (n={n})"
+    if y.shape != exp.shape:
+        out.fail("scale-shape", f"{desc}: result shape {y.shape}", **feat)
+        return out
+    if not np.allclose(y, exp, rtol=1e-9, atol=atol):
+        out.fail("scale-values", f"{desc}: got {y[:4].tolist()} expected {exp[:4].tolist()}", **feat)
+    fvals, fol = make_ints(case["follow"]) if case.get("follow") else (None, None)
+    if fol is not None and INT_KINDS[case["follow"]["kind"]][0] != INT_KINDS[case["x"]["kind"]][0]:
+        fvals = fol = None
+    if fol is not None:
+        out.label("follow-up")
+        exp2 = np.array([float(Fraction(v) - cval) / sval for v in fvals])
+        atol2 = 1e-13 * max(big, float(max(abs(v) for v in fvals))) / sval + 1e-9 * max(np.abs(exp2).max(), 1.0)
+        with warnings.catch_warnings():
+            warnings.simplefilter("ignore")
+            y2 = np.asarray(TRANSFORMS[which](fol, _state=state, **kw), dtype=float)
+        if y2.shape != exp2.shape or not np.allclose(y2, exp2, rtol=1e-9, atol=atol2):
+            out.fail("follow-up-uses-recorded-statistics", f"{desc}, applied to {fvals[:6]}", **feat)
+        src = {"scale": f"scale(x, center={cen!r}, scale={scl!r}, ddof={ddof})", "center": "center(x)", "standardize": f"standardize(x, center={cen!r}, rescale={scl!r}, ddof={ddof})"}[which]
+        with warnings.catch_warnings():
+            warnings.simplefilter("ignore")
+            mm = model_matrix(f"{src} - 1", pd.DataFrame({"x": x}))
+            mm2 = mm.model_spec.get_model_matrix(pd.DataFrame({"x": fol}))
+        a1, a2 = np.asarray(mm, dtype=float).ravel(), np.asarray(mm2, dtype=float).ravel()
+        if a1.shape != exp.shape or a2.shape != exp2.shape or not np.allclose(a1, exp, rtol=1e-9, atol=atol) or not np.allclose(a2, exp2, rtol=1e-9, atol=atol2):
+            out.fail("formula-follow-up", f"{src} trained on {case['x']['kind']} integers {vals[:6]}, applied to {fvals[:6]}", **feat)
+    out.nontrivial = True
+    return out
+
+
+int_vec = st.fixed_dictionaries({"seed": st.integers(0, 10**6), "n": st.integers(2, 40), "kind": st.sampled_from(sorted(INT_KINDS))})
+
+
+def gen_scale_ints():
+    return st.fixed_dictionaries(
+        {
+            "x": int_vec,
+            "which": st.sampled_from(["scale", "scale", "center", "standardize"]),
+            "center": st.sampled_from([True, True, False, 2.5]),
+            "scale": st.sampled_from([True, True, False, 4.0]),
+            "ddof": st.sampled_from([0, 1, 0, 1, 0.5]),
+            "follow": st.one_of(st.none(), int_vec),
+        }
+    )
+
+
+N = {"quick": (1500, 1500, 600, 500), "thorough": (20000, 20000, 6000, 8000)}
 BUDGET_S = {"quick": 60, "thorough": 1200}
 
 
@@ -407,4 +516,5 @@ def campaigns(tier, shard=0, nshards=1):
         Campaign("scale", gen_scale(), check_scale, n[0]),
         Campaign("poly", gen_poly(), check_poly, n[1]),
         Campaign("elementwise", gen_elementwise(), check_elementwise, n[2]),
+        Campaign("scale-integers", gen_scale_ints(), check_scale_ints, n[3]),
     ]
